@@ -1350,6 +1350,9 @@ class ThreadsafeForwardingResult(TestResult):
 
     def startTestRun(self):
         super().startTestRun()
+        # A new run starts without tags, here as in the target.
+        self._global_tags = set(), set()
+        self._test_tags = set(), set()
         self.semaphore.acquire()
         try:
             self.result.startTestRun()
